@@ -238,6 +238,14 @@ def coq_run_cases(tag, imports, run_def, cases, shard=200, timeout=1800):
         return r
     with ThreadPoolExecutor(max_workers=NPROC) as ex:
         rs = list(ex.map(one, files))
+    if any(r.returncode != 0 and "inconsistent assumptions" in (r.stdout + r.stderr) for r in rs):
+        # a concurrent build replaced a .vo this shard depends on (only happens when several checks run at once):
+        # bring the development up to date once and re-run the failed shards
+        build_coq()
+        with ThreadPoolExecutor(max_workers=NPROC) as ex:
+            redo = [i for i, r in enumerate(rs) if r.returncode != 0]
+            for i, r in zip(redo, ex.map(one, [files[i] for i in redo])):
+                rs[i] = r
     out = []
     for p, r in zip(files, rs):
         if r.returncode != 0:
